@@ -149,7 +149,10 @@ def stepLine (s : WState) (line : String) : WState × List String :=
   -- `new w`: a fixed witness case of the harness' corpus
   | ["new", "w"] => (WState.init, ["new"])
   -- thorough tier: the harness starts a client hammering a route outside the op universe
-  | ["traffic"] => (s, ["traffic"])
+  -- (its listener takes a slab token and counts in `base_sessions_count`)
+  | ["traffic"] =>
+    let s1 := (step s (.addListener .http 999 true)).1
+    ((step s1 (.activate (some .http) 999)).1, ["traffic"])
   | ws =>
     -- `nowait`: the harness does not wait for this request's answer before the next write
     let ws := match ws with | "nowait" :: rest => rest | _ => ws
